@@ -123,7 +123,7 @@ theorem skip_result (hs : env.Sane) (c : Codec) (bs : Bytes) :
   refine ⟨n, fun m hm => ?_⟩
   obtain ⟨h1, h2⟩ := h m hm
   have hp := skip_total env m c bs
-  have hk := (skipNoStuckAt env m).skip c bs
+  have hk := (skipNeverStuckAt env m).skip c bs
   have hl := (lenAt env hs m).skip c bs _ (Nat.le_refl _)
   rw [h1] at hp hk hl ⊢
   cases hr : skip env n c bs with
